@@ -209,14 +209,14 @@ func VerifH_C13_cacheStage() {
 // ---- C11: cache loader ----
 
 var c11Lines = [8]string{
-	`{"ip":"10.0.0.%","mac":"00:11:22:33:44:0%","vendor":"x"}`,       // valid
-	`{"ip":"10.0.0.%","mac":"00:11:22:33:44:1%","vendor":"","x":1}`,  // valid, unknown extra field
-	`{"ip":"::ffff:10.0.0.%","mac":"00:11:22:33:44:2%"}`,             // valid, 16-byte spelling
-	`{"ip":"10.0.0.1","mac":"00:11:22:33:44:3%"}`,                    // valid, always address .1 (duplicates)
-	`{"ip":"10.0.0.%"}`,                                              // no mac
-	`{"ip":"10.0.0.%","mac":null}`,                                   // null mac
-	`{"mac":"00:11:22:33:44:6%"}`,                                    // no ip
-	`{"ip":"10.0.0.%","mac":"00:11:22:33:44"}`,                       // bad mac
+	`{"ip":"10.0.0.%","mac":"00:11:22:33:44:0%","vendor":"x"}`,      // valid
+	`{"ip":"10.0.0.%","mac":"00:11:22:33:44:1%","vendor":"","x":1}`, // valid, unknown extra field
+	`{"ip":"::ffff:10.0.0.%","mac":"00:11:22:33:44:2%"}`,            // valid, 16-byte spelling
+	`{"ip":"10.0.0.1","mac":"00:11:22:33:44:3%"}`,                   // valid, always address .1 (duplicates)
+	`{"ip":"10.0.0.%"}`,                        // no mac
+	`{"ip":"10.0.0.%","mac":null}`,             // null mac
+	`{"mac":"00:11:22:33:44:6%"}`,              // no ip
+	`{"ip":"10.0.0.%","mac":"00:11:22:33:44"}`, // bad mac
 }
 
 func c11LineIP(c, i int) net.IP {
